@@ -175,8 +175,7 @@ def main(tier, seed, prop=PROP):
     _, trans = OL.reachable(MODE, frozenset(opts))
     total = {"%s+%s" % (s, cl) for (s, cl) in trans if s != "X"}
     seen = rep.cov.pop("transitions." + MODE, set()) & total
-    if len(seen) < len(total):
-        raise core.Inconclusive("reference transition cover incomplete: %s" % sorted(total - seen)[:5])
+    rep.require(not (len(seen) < len(total)), "reference transition cover incomplete: %s" % sorted(total - seen)[:5])
     rep.assumptions += ["Python's strict UTF-8 codec defines well-formedness (no overlongs, surrogates, > U+10FFFF)",
                         "R-LOCAL(6531) = RFC 5321 automaton with every non-ASCII scalar as one atom/qtext symbol that cannot be escaped"]
     three = "all 2^24" if tier != "quick" else "stride-509 sample + 600-wide neighbourhoods of every encoding boundary"
